@@ -71,6 +71,12 @@ check("C15",
       "UnionNoOverlapClause (first list intact, pieces of each second-list event cover exactly its part not covered by the first list, no overlap, coverage = union, inputs unchanged) is checked by TLC on a "
       "transcription of the two-index merge and on every recorded call of the real union_no_overlap over all pairs of small sorted lists plus random 3-event lists.",
       "Trusted: as C09.", "TLA+ relational spec + TLC model checking of the algorithm transcription + TLC validation of recorded I/O", "DESIGN.md §6 C15")
+check("C16",
+      "spec/AwGrouping.tla states merge-by-keys (one event per presence-and-value signature, exact sums, total conserved), chunking (sub-events concatenate back, runs share the value, durations add up), "
+      "sorting, limiting and filter/exclude complementarity as relations; TLC checks a transcription of the dictionary accumulation against MergeClause (and refutes the values-only composite key), "
+      "and judges every recorded call of the real functions with inputs re-read after the call.",
+      "Trusted: TLC; abstract values {v1,v2,list,null} concretised to str/list/None; small-scope hypothesis.",
+      "TLA+ relational spec + TLC model checking of the algorithm transcription + TLC validation of recorded I/O", "DESIGN.md §6 C16")
 
 
 def build():
